@@ -898,7 +898,7 @@ class _PropertyGrid(_Grid):
         mask = np.zeros((self.width, self.height), dtype=bool)
 
         # Convert the neighborhood list to a NumPy array and use advanced indexing
-        coords = np.array(neighborhood)
+        coords = np.array(neighborhood, dtype=int).reshape(-1, 2)
         mask[coords[:, 0], coords[:, 1]] = True
         return mask
 
